@@ -157,6 +157,8 @@ def _run_case(idx, c):
     if site == "ske12":
         kex = {"rsa": "ecdhe_rsa" if ver > 0 and idx % 2 else "dhe_rsa", "dsa": "dhe_dsa"}.get(kt, "ecdhe_ecdsa")
         f = flavour(ver, kex)
+    elif site == "ske12srp":
+        f = flavour(ver, "srp_sha_rsa")
     elif site == "cv12":
         kex = "dhe_dsa" if kt == "dsa" else ("ecdhe_rsa" if ver > 0 else "dhe_rsa")
         f = flavour(ver, kex, reqCert="cert", ccred=CLT_CRED[kt])
@@ -200,14 +202,14 @@ def _run_case(idx, c):
     prover = p.s if role == "c" else p.c
     pname = "s" if role == "c" else "c"
     prover_kw = b["skw"] if role == "c" else b["ckw"]
-    target = {"ske12": HandshakeType.server_key_exchange, "cv12": HandshakeType.certificate_verify,
+    target = {"ske12": HandshakeType.server_key_exchange, "ske12srp": HandshakeType.server_key_exchange, "cv12": HandshakeType.certificate_verify,
               "scv13": HandshakeType.certificate_verify, "ccv13": HandshakeType.certificate_verify,
               "dccv": HandshakeType.certificate_verify,
               "phacv": HandshakeType.certificate_verify, "fin": HandshakeType.finished,
               "phafin": HandshakeType.finished}.get(site)
     state = {"hit": 0, "armed": site not in ("phacv", "phafin")}
     # ---- key-level corruptions
-    if site in ("ske12", "cv12", "scv13", "ccv13", "phacv") and cls in ("otherkey", "otherdata"):  # (dc sites: below)
+    if site in ("ske12", "ske12srp", "cv12", "scv13", "ccv13", "phacv") and cls in ("otherkey", "otherdata"):  # (dc sites: below)
         if cls == "otherkey":
             name = OTHER_KEY[kt] if role == "c" else OTHER_KEY_FOR_CLIENT[kt]
             key = fresh_key(name)
@@ -251,6 +253,23 @@ def _run_case(idx, c):
         b["skw"]["dc_key"] = dc_key
         b["skw"]["del_cred"] = dc
         b["ckw"]["settings"].dc_sig_algs = dc_algs
+    restore = None
+    if site == "srp" and cls == "degenerate":
+        # the client does not know the password; it sends A = k*N and derives its keys from the premaster that
+        # value forces on the server (S = 0)
+        import tlslite.keyexchange as KX
+        from tlslite.utils.cryptomath import numberToByteArray
+        b["ckw"]["password"] = bytearray(b"not-the-password")
+        kmul = c.get("var", 0)
+        orig_psk = KX.SRPKeyExchange.processServerKeyExchange
+
+        def forced(self, srvPublicKey, serverKeyExchange):
+            orig_psk(self, srvPublicKey, serverKeyExchange)
+            self.A = kmul * serverKeyExchange.srp_N
+            return numberToByteArray(0)
+        KX.SRPKeyExchange.processServerKeyExchange = forced
+        restore = lambda: setattr(KX.SRPKeyExchange, "processServerKeyExchange", orig_psk)   # noqa
+        state["hit"] = 1
     if site == "srp" and cls == "wrongsecret":
         b["ckw"]["password"] = bytearray(b"not-the-password")
         state["hit"] = 1
@@ -335,7 +354,11 @@ def _run_case(idx, c):
     prover._queue_message = _queue_message
     # PSK binders are computed after the ClientHello object is built: corrupt right before sending
     cgen, sgen = sc.gens()
-    st, co, so = p.run(cgen, sgen, max_steps=50000)
+    try:
+        st, co, so = p.run(cgen, sgen, max_steps=50000)
+    finally:
+        if restore:
+            restore()
     eo = co if role == "c" else so
     completed = eo.ok
     chain_before = p.s.session.clientCertChain if (so.ok and p.s.session) else None
@@ -399,6 +422,8 @@ def run(tier):
             nvar = 3 if tier == "quick" else 40
         elif c["cls"] in ("trunc", "extend"):
             nvar = 2 if tier == "quick" else 4
+        elif c["cls"] == "degenerate":
+            nvar = 4 if tier == "quick" else 8
         for v in range(nvar):
             cases.append(dict(c, var=v))
     with Pool(16) as pool:
